@@ -1709,6 +1709,8 @@ def _name_lengths(fn: ast.FunctionDef):
                 return cond_free(st.test)
             if isinstance(st, ast.For):
                 return cond_free(st.iter)
+            if isinstance(st, ast.With):
+                return any(unconditional(s_) for s_ in st.body)
             return False
 
         # the innermost block that contains every use
@@ -1723,7 +1725,13 @@ def _name_lengths(fn: ast.FunctionDef):
                     continue
             break
         first = next((i for i, s_ in enumerate(blk) if count(s_)), None)
-        if first is None or not unconditional(blk[first]):
+        if first is None:
+            continue
+        if x in params and blk is fn.body and any(unconditional(s_) for s_ in blk):
+            # a parameter whose length the function evaluates on its main path: name it once, at the top
+            first = 1 if (fn.body and isinstance(fn.body[0], ast.Expr) and isinstance(fn.body[0].value, ast.Constant)
+                          and isinstance(fn.body[0].value.value, str)) else 0
+        elif not unconditional(blk[first]):
             continue            # the first evaluation is conditional: naming it would add an evaluation
         k = first
         # x must be defined before that point: a parameter, or its single definition precedes in this or an outer block
